@@ -18,9 +18,9 @@ static const v_cfg_t vcfgs[] = {
     { "tls12-ecdhe-rsa-aes256gcm", V_TLS12, KX_ECDHE_RSA, TLS_ECDHE_RSA_WITH_AES_256_GCM_SHA384, 32, 0, 0 },
 };
 #define NVCFG ((int) (sizeof(vcfgs) / sizeof(vcfgs[0])))
-enum { V_NONE = 0, V_HSEMPTY, V_HSHELLO, V_ALERT, V_ALERTLEN, V_CCS, V_APPLEN, V_TYPE, V_VERSION, V_SEQ, V_HSFRAG, V_TWOMSG, V_PAD, V_DFRAG, V_DEPOCH, V_NK };
+enum { V_NONE = 0, V_HSEMPTY, V_HSHELLO, V_ALERT, V_ALERTLEN, V_CCS, V_APPLEN, V_TYPE, V_VERSION, V_SEQ, V_HSFRAG, V_TWOMSG, V_PAD, V_DFRAG, V_DEPOCH, V_RAWCBC, V_NK };
 static const char *vname[] = { "follow-up-only", "empty-handshake-message-of-type", "replayed-hello", "alert", "alert-of-length", "change-cipher-spec", "application-record-of-length",
-    "record-type", "record-version", "wrong-sequence", "fragmented-handshake-message", "two-messages-one-record", "cbc-padding", "dtls-fragment-shape", "dtls-epoch" };
+    "record-type", "record-version", "wrong-sequence", "fragmented-handshake-message", "two-messages-one-record", "cbc-padding", "dtls-fragment-shape", "dtls-epoch", "cbc-raw-blocks" };
 typedef struct {
     world_t w;
     int ci, victim, dtls;
@@ -258,6 +258,24 @@ static void v_run_case(void *ctx, mx_result_t *r)
         memset(pt, 0x62, (size_t) g->b);
         SEND(23, pt, g->b, g->a);
         break;
+    case V_RAWCBC:
+    {
+        /* CBC: a blocks of plaintext that consist ONLY of the byte b - a record without room for a MAC whose last byte claims
+           b + 1 bytes of (consistent) padding: padding longer than the record, padding + MAC filling the record exactly,
+           padding + MAC leaving no room for the explicit IV, ... */
+        unsigned char hdr[13];
+        int i, hl = g->dtls ? 13 : 5;
+        hdr[0] = 23; hdr[1] = (unsigned char) vmaj; hdr[2] = (unsigned char) vmin;
+        if (g->dtls)
+        {
+            hdr[3] = 0; hdr[4] = 1;
+            for (i = 0; i < 6; i++) hdr[5 + i] = (unsigned char) (seq >> (8 * (5 - i)));
+        }
+        memset(pt, g->b, (size_t) (16 * g->a));
+        rl = tk12_cbc_raw_seal(g->key, vc->keylen, hdr, hl, pt, 16 * g->a, rec); seq++;
+        if (rl > 0) world_feed(&g->w, v, rec, rl);
+        break;
+    }
     case V_DFRAG:
     {
         /* DTLS fragment shapes of a message of type (hello type) with announced length L = 64:
@@ -425,6 +443,13 @@ static void v_run_group(int ci, int victim)
     if (vc->maclen)
     {
         for (a = 0; a < 3; a++) for (b = 0; b <= 48; b++) v_fork(&g, V_PAD, a, b);
+        for (a = 0; a <= 5; a++)
+        {
+            for (b = 0; b < 256; b++)
+            {
+                if (b <= 16 * a + 17 || b == 255 || (thorough && (b % 16) == 15)) v_fork(&g, V_RAWCBC, a, b);
+            }
+        }
     }
     if (g.dtls)
     {
